@@ -448,6 +448,11 @@ EDGES = [
     # an element designated after a string literal that initialises the same static array: at every index up to the array's end
     # (inside the literal, on its terminator, directly behind it, further on), for every element width
     *(["char s[8] = {\"abc\", [%d] = 'x'};" % k for k in range(8)] + ["unsigned w[16] = {U\"aaaaa\", [%d] = 0xffffffff};" % k for k in (4, 5, 6, 7, 15)] + ["unsigned short h[6] = {u\"ab\", [%d] = 7, 8};" % k for k in (1, 2, 3, 4)] + ["struct { char a[6]; int k; } v = {{\"ab\", [%d] = 'z'}, 1};" % k for k in (2, 3, 4, 5)] + ["void f(void) { static char s[5] = {\"\", [%d] = 1}; char t[5] = {\"\", [%d] = 1}; (void)s; (void)t; }" % (k, k) for k in (0, 1, 2, 4)]),
+    # directives between the parentheses of an invocation (undefined, 6.10.3p11 - but any input is handled cleanly): #undef and
+    # #define of the macro being invoked, of an enclosing one, of one used in the arguments
+    "#define F(a, b) a b\nF(1,\n#undef F\n2)\n", "#define F(a) #a\nF(\n#undef F\nx)\nF(y)\n", "#define F(a) a\n#define G F(\nG\n#undef F\n#undef G\n1)\n",
+    "#define F(a, ...) a __VA_ARGS__\nF(1,\n#define F(a) a\n2)\n", "#define F(a) a F\nF(F(\n#undef F\n1)\n2)\n", "#define F(a, b) a b\n#define H 3\nF(H,\n#undef H\nH)\n",
+    "#define F(a, b) b a\nF(1\n#undef F\n#define F(x) x x\n, F(2))\n", "#define F(a) a\nint x = F(\n#line 7\n1\n#pragma p\n);\n", "#define S(x) #x\n#define F(a, b) S(a b)\nF(p\n#undef S\n, q)\n",
 ]
 
 
